@@ -9,9 +9,37 @@ from kernel import origins
 _memo = {}
 
 
+_rk = {}
+
+
+def _returned_kinds(prog, fn):
+    """SyntaxKind constants a small pure grammar helper (`fn list_node_kind(flavor) -> SyntaxKind`) can return."""
+    key = (prog.dir, fn)
+    if key not in _rk:
+        from sym import SymExec, deep_strip
+        b = prog.body(fn)
+        out = set()
+        if b is not None and len(b.blocks) <= 60:
+            for p in SymExec(prog, b, max_visits=1, max_paths=400).paths():
+                if "__diverged__" in p.env:
+                    continue
+                r = deep_strip(p.env.get(0))
+                out.add(r[1].rsplit("::", 1)[1] if isinstance(r, tuple) and r[0] == "adt" and "SyntaxKind::" in r[1] else "?")
+        _rk[key] = out or {"?"}
+    return _rk[key]
+
+
 def completed_kinds(prog, b, bi_t):
     bi, t = bi_t
-    return {og[2] if og[0] == "agg" else "?" for og in origins(prog, b, t["args"][2], max_depth=3)}
+    out = set()
+    for og in origins(prog, b, t["args"][2], max_depth=3):
+        if og[0] == "agg":
+            out.add(og[2])
+        elif og[0] == "call" and isinstance(og[1], str) and og[1].startswith("oq3_parser::grammar::") and prog.body(og[1]) is not None:
+            out |= _returned_kinds(prog, og[1])      # the kind comes out of a helper table
+        else:
+            out.add("?")
+    return out
 
 
 ERRORS = ("oq3_parser::parser::Parser::error", "oq3_parser::parser::Parser::err_and_bump", "oq3_parser::parser::Parser::err_recover")
